@@ -26,6 +26,8 @@ pub struct Cfg {
 pub enum C07Case {
     Doc { doc: DocCase, cfg: Cfg },
     Control { text: usize, cfg: Cfg, via: usize },
+    /// a document without paragraphs (index into NO_PARA_TEXTS)
+    Fixed { text: usize, cfg: Cfg },
 }
 
 pub const CONTROL_TEXTS: [&str; 8] = [
@@ -403,6 +405,105 @@ fn check_doc(doc: &Doc, c: &Cfg) -> Vec<Viol> {
             }
         }
     }
+    // the control-file wrapper on a document without control-specific field names is the deb822-level reformatting with
+    // the identity formatter and a paragraph order in which all paragraphs tie
+    if c.porder == 0 && c.eorder == 0 && c.fmt == 1 {
+        use debian_control::lossless::control::Control;
+        if let Ok(mut control) = Control::from_str(text) {
+            let special = doc.paras.iter().flatten().any(|(k, _)| k == "Source" || k == "Package" || k == "Uploaders" || REL_FIELDS.contains(&k.as_str()));
+            if !special {
+                control.wrap_and_sort(indentation(c), c.iel, oneliner(c));
+                let ctl = control.as_deb822().to_string();
+                if ctl != out_text {
+                    out.push(viol("control-wrapper-agrees", ctx(&format!("Control::wrap_and_sort gives {:?}", ctl))));
+                }
+            }
+        }
+    }
+    // Deb822::wrap_and_sort without a paragraph wrapper: paragraphs are only (re)ordered and separated
+    if c.indent == 0 && !c.iel && c.oneliner == 0 && c.eorder == 0 && c.fmt == 0 {
+        let sp: Option<&dyn Fn(&Paragraph, &Paragraph) -> Ordering> = match c.porder {
+            0 => None,
+            1 => Some(&pcmp),
+            _ => Some(&pcmp_rev),
+        };
+        let r2 = d.wrap_and_sort(sp, None);
+        let t2 = r2.to_string();
+        let ctx2 = |what: &str| format!("input {:?} paragraph order {} no paragraph wrapper output {:?}: {}", text, c.porder, t2, what);
+        match Deb822::from_str(&t2) {
+            Err(e) => out.push(viol("result-parses", ctx2(&e.to_string().replace('\n', "; ")))),
+            Ok(re2) => {
+                let got: Vec<Vec<(String, String)>> = re2.paragraphs().map(|p| p.items().collect()).collect();
+                let mut want: Vec<(Option<String>, Vec<(String, String)>)> =
+                    d.paragraphs().map(|p| (p.get("A"), p.items().collect::<Vec<_>>())).filter(|(_, i)| !i.is_empty()).collect();
+                match c.porder {
+                    1 => want.sort_by(|a, b| a.0.cmp(&b.0)),
+                    2 => want.sort_by(|a, b| b.0.cmp(&a.0)),
+                    _ => {}
+                }
+                let keys: Vec<Option<String>> = got.iter().map(|p| p.iter().find(|(k, _)| k == "A").map(|(_, v)| v.clone())).collect();
+                let ordered = match c.porder {
+                    0 => got == want.iter().map(|w| w.1.clone()).collect::<Vec<_>>(),
+                    1 => keys.windows(2).all(|w| w[0] <= w[1]),
+                    _ => keys.windows(2).all(|w| w[0] >= w[1]),
+                };
+                let (mut a, mut b) = (got.clone(), want.iter().map(|w| w.1.clone()).collect::<Vec<_>>());
+                a.sort();
+                b.sort();
+                if a != b || !ordered {
+                    out.push(viol("content-kept", ctx2(&format!("paragraphs {:?}, expected (in order) {:?}", got, want))));
+                }
+                for (ctext, _) in &doc.comments {
+                    let n = t2.lines().filter(|l| l == ctext).count();
+                    if n != 1 {
+                        out.push(viol("comment-kept-on-own-line", ctx2(&format!("comment {:?} appears {} times as a whole line", ctext, n))));
+                    }
+                }
+                let sc2 = scan(&t2);
+                for w in sc2.paras.windows(2) {
+                    let between = &t2[w[0].end..w[1].start];
+                    let blanks = between.split_inclusive('\n').filter(|l| l.trim_end_matches('\n').is_empty()).count();
+                    if blanks != 1 {
+                        out.push(viol("one-blank-line-between-paragraphs", ctx2(&format!("between paragraphs: {:?}", between))));
+                    }
+                }
+                let again = r2.wrap_and_sort(sp, None).to_string();
+                if again != t2 {
+                    out.push(viol("idempotent", ctx2(&format!("second application gives {:?}", again))));
+                }
+            }
+        }
+    }
+    out
+}
+
+/// documents without any paragraph
+pub const NO_PARA_TEXTS: [&str; 5] = ["", "# c\n", "\n\n", "# c\n\n# d\n", "\n# c\n"];
+
+fn check_fixed(ti: usize, c: &Cfg) -> Vec<Viol> {
+    let text = NO_PARA_TEXTS[ti];
+    let mut out = vec![];
+    let Ok(d) = Deb822::from_str(text) else { return out };
+    let result = wrap_doc(&d, c);
+    let out_text = result.to_string();
+    let ctx = |what: &str| format!("input {:?} cfg {:?} output {:?}: {}", text, c, out_text, what);
+    match Deb822::from_str(&out_text) {
+        Err(e) => out.push(viol("result-parses", ctx(&e.to_string().replace('\n', "; ")))),
+        Ok(re) => {
+            if re.paragraphs().any(|p| p.items().count() > 0) {
+                out.push(viol("content-kept", ctx("a field appeared")));
+            }
+        }
+    }
+    for cl in text.lines().filter(|l| l.starts_with('#')) {
+        if out_text.lines().filter(|l| *l == cl).count() != 1 {
+            out.push(viol("comment-kept-on-own-line", ctx(&format!("comment {:?}", cl))));
+        }
+    }
+    let again = wrap_doc(&result, c).to_string();
+    if again != out_text {
+        out.push(viol("idempotent", ctx(&format!("second application gives {:?}", again))));
+    }
     out
 }
 
@@ -441,10 +542,65 @@ fn control_value_norm(k: &str, v: &str) -> Vec<Vec<String>> {
     }
 }
 
+/// The control-file formatter written from its documentation: Uploaders one per line, relationship fields normalised.
+fn ref_control_format(name: &str, value: &str) -> String {
+    use debian_control::lossless::relations::Relations;
+    if name == "Uploaders" {
+        value.split(',').map(|s| s.trim().to_string()).collect::<Vec<_>>().join(",\n")
+    } else if REL_FIELDS.contains(&name) {
+        let (r, errs) = Relations::parse_relaxed(value, true);
+        if errs.is_empty() {
+            r.wrap_and_sort().to_string()
+        } else {
+            value.to_string()
+        }
+    } else {
+        value.to_string()
+    }
+}
+fn ref_control_order(a: &Paragraph, b: &Paragraph) -> Ordering {
+    // source paragraphs first (by name), then binary paragraphs by name
+    let key = |p: &Paragraph| (p.get("Source").is_none(), p.get("Source"), p.get("Package"));
+    key(a).cmp(&key(b))
+}
+
 fn check_control(ti: usize, c: &Cfg, via: usize) -> Vec<Viol> {
     use debian_control::lossless::control::Control;
     let text = CONTROL_TEXTS[ti];
     let mut out = vec![];
+    // differential: the wrappers are the deb822-level reformatting (whose layout guarantees the document cases check)
+    // with the control formatter and the control paragraph order plugged in
+    if let (Ok(mut control), Ok(d)) = (Control::from_str(text), Deb822::from_str(text)) {
+        let wp = |p: &Paragraph| p.wrap_and_sort(indentation(c), c.iel, oneliner(c), None, Some(&ref_control_format));
+        if via == 0 {
+            control.wrap_and_sort(indentation(c), c.iel, oneliner(c));
+            let want = d.wrap_and_sort(Some(&ref_control_order), Some(&wp)).to_string();
+            let got = control.as_deb822().to_string();
+            if got != want {
+                out.push(viol("control-wrapper-agrees", format!("control input {:?} cfg {:?}: Control::wrap_and_sort gives {:?}, the deb822-level reformatting with the documented formatter and order gives {:?}", text, c, got, want)));
+            }
+        } else {
+            let mut got = vec![];
+            if let Some(mut sp) = control.source() {
+                sp.wrap_and_sort(indentation(c), c.iel, oneliner(c));
+                got.push(sp.as_deb822().to_string());
+            }
+            for mut b in control.binaries() {
+                b.wrap_and_sort(indentation(c), c.iel, oneliner(c));
+                got.push(b.as_deb822().to_string());
+            }
+            let mut want = vec![];
+            if let Some(p) = d.paragraphs().find(|p| p.get("Source").is_some()) {
+                want.push(wp(&p).to_string());
+            }
+            for p in d.paragraphs().filter(|p| p.get("Package").is_some()) {
+                want.push(wp(&p).to_string());
+            }
+            if got != want {
+                out.push(viol("control-wrapper-agrees", format!("control input {:?} cfg {:?}: Source/Binary::wrap_and_sort give {:?}, Paragraph::wrap_and_sort with the documented formatter gives {:?}", text, c, got, want)));
+            }
+        }
+    }
     let Ok(mut control) = Control::from_str(text) else {
         return out;
     };
@@ -619,6 +775,11 @@ impl Prop for C07 {
                     }
                 });
             }
+            for text in 0..NO_PARA_TEXTS.len() {
+                product(&cfg_menus(), &mut |cv| {
+                    f(&C07Case::Fixed { text, cfg: cfg_from(cv) });
+                });
+            }
             return;
         }
         let (si, first) = shards[shard];
@@ -653,6 +814,7 @@ impl Prop for C07 {
                 None => vec![],
             },
             C07Case::Control { text, cfg, via } => check_control(*text, cfg, *via),
+            C07Case::Fixed { text, cfg } => check_fixed(*text, cfg),
         });
         match r {
             Ok(vs) => {
@@ -681,6 +843,16 @@ impl Prop for C07 {
                         let mut v = cur;
                         v[i] = 0;
                         out.push(C07Case::Doc { doc: doc.clone(), cfg: cfg_from(&v) });
+                    }
+                }
+            }
+            C07Case::Fixed { text, cfg } => {
+                let cur = [cfg.indent, cfg.iel as usize, cfg.oneliner, cfg.porder, cfg.eorder, cfg.fmt];
+                for i in 0..cur.len() {
+                    if cur[i] != 0 {
+                        let mut v = cur;
+                        v[i] = 0;
+                        out.push(C07Case::Fixed { text: *text, cfg: cfg_from(&v) });
                     }
                 }
             }
